@@ -74,7 +74,7 @@ Lemma resume_transition_all : forall gc ops k vals r s1, let s := reach gc ops i
      stof s k = Some Suspended /\ stof s1 k = Some Running /\ current s1 = Some k /\
      (forall p, current s = Some p -> stof s p = Some Running /\ stof s1 p = Some Normal) /\
      (forall j, j <> k -> current s <> Some j -> stof s1 j = stof s j)) /\
-  (r <> COk -> current s1 = current s /\ forall j, stof s1 j = stof s j).
+  (r <> COk -> s1 = s).
 Proof. intros. eapply resume_transition; eauto. apply reach_Inv. Qed.
 
 Lemma yield_transition_all : forall gc ops k c vals r s1, let s := reach gc ops in
@@ -223,29 +223,21 @@ Proof.
   - split; [apply destroy_nil|]. intros m s'. apply destroy_no_panic; assumption.
 Qed.
 
-(* a failed resume with arguments keeps what coroutine.push stored (documented order) *)
-Lemma resume_args_effect : forall gc ops k c vals s1, let s := reach gc ops in
-  get k (cos s) = Some c -> co_st c <> Suspended -> vals <> [] -> co_push k vals s = (COk, s1) ->
-  co_resume k vals s = (CErr MCO_NOT_SUSPENDED, s1).
-Proof.
-  intros gc ops k c vals s1 s G N V P. unfold co_resume.
-  destruct vals as [|v r]; [contradiction|]. rewrite P.
-  pose proof (co_push_same _ _ _ _ _ (reach_Inv gc ops) P) as (_ & A & _).
-  specialize (A k). fold s in A. rewrite G in A. unfold mco_resume.
-  destruct (get k (cos s1)) as [c1|]; [|discriminate]. simpl in A. inversion A as [[A1 A2]].
-  rewrite A1. destruct (cstate_eqb (co_st c) Suspended) eqn:E; [apply cstate_eqb_eq in E; contradiction|].
-  reflexivity.
-Qed.
+(* a refused resume WITH arguments (that fit): the documented error, the whole state unchanged *)
+Lemma refused_resume_unchanged_all : forall gc ops k c vals, let s := reach gc ops in
+  get k (cos s) = Some c -> co_st c <> Suspended -> (forall e, fst (co_push k vals s) <> CErr e) ->
+  co_resume k vals s = (CErr MCO_NOT_SUSPENDED, s).
+Proof. intros. eapply refused_resume_unchanged; eauto. apply reach_Inv. Qed.
 
 (* ---- facts about the constants scraped from the source *)
 Lemma gen_facts :
-  DESTROY_UNREGISTERS_FIRST = false /\ MCO_ZERO_MEMORY = true /\ 0 < STORAGE_SIZE /\
+  DESTROY_UNREGISTERS_FIRST = false /\ RESUME_ROLLS_BACK_ARGS = true /\ MCO_ZERO_MEMORY = true /\ 0 < STORAGE_SIZE /\
   NoDup (map cstate_code all_cstate) /\ NoDup (map mres_code all_mres) /\ NoDup (map describe all_mres) /\
   status_of_state Suspended = "suspended"%string /\ status_of_state Running = "running"%string /\
   status_of_state Normal = "normal"%string /\ status_of_state Dead = "dead"%string /\
   STATUS_NIL = "dead"%string /\ STATUS_MAIN_RUNNING = "running"%string /\ STATUS_MAIN_NORMAL = "normal"%string.
 Proof.
-  split; [apply destroy_order_fixed|]. split; [apply zero_memory_on|]. split; [apply storage_size_pos|].
+  split; [apply destroy_order_fixed|]. split; [apply resume_rolls_back|]. split; [apply zero_memory_on|]. split; [apply storage_size_pos|].
   split; [apply state_codes_distinct|]. split; [apply result_codes_distinct|].
   split; [apply descriptions_distinct|]. apply status_strings_documented.
 Qed.
@@ -320,6 +312,13 @@ Example ex_values :
    mkLine None 0 "pop" [FB true; FS ""; FV [5]%Z; FV [6;0;0;0;0;0;0;0]%Z];
    mkLine None 0 "status" [FS "dead"; FN 0; FB true; FB true; FP None]]%string.
 Proof. vm_compute. reflexivity. Qed.
+
+(* refused resumes with arguments on the example state: self, normal, dead - error and nothing changes *)
+Example ex_refused_resume_args :
+  co_resume 2 [[1;2;3]%Z] (reach true ex_ops) = (CErr MCO_NOT_SUSPENDED, reach true ex_ops) /\
+  co_resume 0 [[1;2;3]%Z; [4]%Z] (reach true ex_ops) = (CErr MCO_NOT_SUSPENDED, reach true ex_ops) /\
+  co_resume 4 [[9]%Z] (reach true ex_ops) = (CErr MCO_NOT_SUSPENDED, reach true ex_ops).
+Proof. split; [vm_compute; reflexivity|]. split; vm_compute; reflexivity. Qed.
 
 (* dead-is-absorbing has a dead coroutine to talk about; destroy removes it *)
 Example ex_dead : stof (reach true ex_ops) 4 = Some Dead /\
